@@ -10,6 +10,11 @@ import SlogModel.Gen.Facts
       `Frame.feed` and leaves exactly its buffer contents, `offsetSearch` and `offsetAppend`.
   * `C08_fragmentation_index_level` : hence any two fragmentations of a stream, run through the index loop call by
       call, emit the same records and end in the same buffer (C08_fragmentation transported to the index level).
+  * `C08_flush_index_level`, `C08_flushAll_index_level`, `C08_checkOverflow_index_level`, `C08_read_index_level` : `Flush`
+      (`bytes.LastIndexByte`, `buffer[:n]`, relocation of `buffer[n+1:]`), `FlushAll`, `checkOverflow` (`buffer[searchStart:]`,
+      `buffer[:searchStart-1]`) and a whole `Read` call, transcribed over the flat buffer, are the byte-list model's — so the whole
+      reader of `multilinereader.go` is modelled at index level and every C08 theorem is a theorem about it.
+  Five whole-body facts pin the transcriptions.
 -/
 
 open Frame FrameIdx
@@ -261,6 +266,107 @@ example : (runIdx (fun l => l.head? = some 60) { buf := [], offsetSearch := 0 } 
     { buf := b!"<c\n", offsetSearch := 3 } := by decide
 
 
+
+/-! ### `Flush`, `FlushAll` and `checkOverflow` at index level -/
+
+theorem ofSt_empty : ofSt ({} : St) = { buf := [], offsetSearch := 0 } := rfl
+
+/-- **C08 (`Flush` at index level).** -/
+theorem C08_flush_index_level (t : Bytes → Bool) (s : St) :
+    FrameIdx.flush t (ofSt s) = (ofSt (Frame.flush t s).1, (Frame.flush t s).2) := by
+  unfold FrameIdx.flush Frame.flush lastIndexNL
+  have hb : (ofSt s).buf.reverse = s.restRev ++ s.curRev := by simp [ofSt]
+  rw [hb]
+  cases hib : indexByte (s.restRev ++ s.curRev) 10 with
+  | none =>
+    have h10 := indexByte_none _ hib
+    simp [splitLastNL_none _ [] h10]
+  | some k =>
+    obtain ⟨after, r, hsplit, h10, hk⟩ := indexByte_some _ k hib
+    subst hk
+    rw [hsplit, splitLastNL_some after r [] h10]
+    have hbuf : (ofSt s).buf = r.reverse ++ 10 :: after.reverse := by
+      have : (ofSt s).buf = ((ofSt s).buf.reverse).reverse := by simp
+      rw [this, hb, hsplit]; simp
+    have hlen : (ofSt s).buf.length - 1 - after.length = r.length := by
+      rw [hbuf]; simp
+    simp only [Option.map_some, hlen, List.append_nil]
+    have htake : (ofSt s).buf.take r.length = r.reverse := by
+      rw [hbuf, List.take_left' (by simp)]
+    have hdrop : (ofSt s).buf.drop (r.length + 1) = after.reverse := by
+      rw [hbuf, show r.reverse ++ 10 :: after.reverse = (r.reverse ++ [10]) ++ after.reverse by simp, List.drop_left' (by simp)]
+    rw [htake, hdrop]
+    refine Prod.ext ?_ ?_
+    · simp [ofSt]
+    · by_cases hr : r = []
+      · subst hr; simp
+      · have : r.reverse ≠ [] := by simpa using hr
+        have hpos : 0 < r.length := List.length_pos_iff.mpr hr
+        simp [this, hpos]
+
+/-- **C08 (`FlushAll` at index level).** -/
+theorem C08_flushAll_index_level (t : Bytes → Bool) (s : St) :
+    FrameIdx.flushAll t (ofSt s) = (ofSt (Frame.flushAll t s).1, (Frame.flushAll t s).2) := by
+  unfold FrameIdx.flushAll Frame.flushAll
+  generalize hb : s.restRev ++ s.curRev = bufRev
+  have hbuf : (ofSt s).buf = bufRev.reverse := by simp [ofSt, hb]
+  rw [hbuf]
+  refine Prod.ext (by simp [ofSt]) ?_
+  cases bufRev with
+  | nil => simp
+  | cons x r =>
+    by_cases hx : x = 10
+    · subst hx
+      simp [List.take_left']
+    · have h1 : ¬ (some x = some 10) := by simpa using hx
+      simp only [List.reverse_cons, List.length_append, List.length_reverse, List.length_cons, List.length_nil, gt_iff_lt,
+        Nat.zero_lt_succ, if_true, List.getLast?_append, List.getLast?_singleton, Option.some_or]
+      have hm : (match x :: r with | 10 :: r' => r' | r' => r') = x :: r := by
+        cases x with
+        | zero => rfl
+        | succ n =>
+          by_cases hn : n + 1 = 10
+          · exact absurd hn hx
+          · split
+            · rename_i heq; cases heq; exact absurd rfl hx
+            · rfl
+      simp [hx, hm]
+
+/-- **C08 (`checkOverflow` at index level).** -/
+theorem C08_checkOverflow_index_level (c : Cfg) (t : Bytes → Bool) (s : St) :
+    FrameIdx.checkOverflow c t (ofSt s) = (ofSt (Frame.checkOverflow c t s).1, (Frame.checkOverflow c t s).2) := by
+  unfold FrameIdx.checkOverflow Frame.checkOverflow
+  have hlen : (ofSt s).buf.length = s.offsetAppend := by
+    simp only [ofSt, St.offsetAppend, List.length_reverse, List.length_append]; omega
+  have hos : (ofSt s).offsetSearch = s.curRev.length := rfl
+  have hbuf : (ofSt s).buf = s.curRev.reverse ++ s.restRev.reverse := by simp [ofSt]
+  rw [hlen]
+  by_cases hroom : c.cap - s.offsetAppend ≥ c.soft
+  · simp [hroom]
+  · simp only [hroom, if_false, hos]
+    have hdrop : (ofSt s).buf.drop s.curRev.length = s.restRev.reverse := by
+      rw [hbuf, List.drop_left' (by simp)]
+    have htake : (ofSt s).buf.take (s.curRev.length - 1) = s.curRev.tail.reverse := by
+      rw [hbuf, List.take_append_of_le_length (by simp), ← List.dropLast_reverse, List.dropLast_eq_take]
+      simp
+    have hne : (s.curRev.length > 0) ↔ s.curRev ≠ [] := by rw [← List.length_pos_iff]
+    rw [hdrop, htake]
+    by_cases hc : s.curRev ≠ [] ∧ t s.restRev.reverse = true
+    · have hc' : s.curRev.length > 0 ∧ t s.restRev.reverse = true := ⟨hne.mpr hc.1, hc.2⟩
+      simp [hc.1, hc.2, hc'.1, ofSt]
+    · have hc' : ¬ (s.curRev.length > 0 ∧ t s.restRev.reverse = true) := fun h => hc ⟨hne.mp h.1, h.2⟩
+      have hm : ¬ (s.curRev ≠ [] ∧ t s.restRev.reverse = true) := hc
+      simp only [hc', if_false]
+      rw [if_neg hm]
+      simp [hbuf, ofSt]
+
+/-- `Read` = `processBuffer` then `checkOverflow`, at index level, is the model's `read` (a non-empty fragment) -/
+theorem C08_read_index_level (c : Cfg) (t : Bytes → Bool) (s : St) (hs : Scanned s) (frag : Bytes) (hne : frag ≠ []) :
+    (let (x1, o1) := processBuffer t (ofSt s) frag
+     let (x2, o2) := FrameIdx.checkOverflow c t x1
+     (x2, o1 ++ o2)) = (ofSt (Frame.read c t s frag).1, (Frame.read c t s frag).2) := by
+  simp only [C08_process_buffer_is_feed t s hs frag, C08_checkOverflow_index_level, Frame.read, hne, if_false]
+
 /-! ### fact obligations (Tie B): the statements `FrameIdx.pbLoop` / `finish` / `processBuffer` transcribe -/
 
 /-- `processBuffer`, statement by statement: cursors, `bytes.IndexByte`, the guard of the start test, the two slices, the
@@ -279,5 +385,21 @@ theorem C08_fact_process_buffer : Facts.frame_process_buffer =
 theorem C08_fact_read : Facts.frame_read =
     ["n, err := mlr.readInput(mlr.buffer[mlr.offsetAppend:])", "if n > 0 {", "bufferedLength := n + mlr.offsetAppend",
      "mlr.processBuffer(bufferedLength)", "}", "return err"] := by decide
+
+/-- `Flush`, `FlushAll`, `checkOverflow`, statement by statement (`FrameIdx.flush` / `flushAll` / `checkOverflow`) -/
+theorem C08_fact_flush : Facts.frame_flush =
+    ["buffer := mlr.buffer[:mlr.offsetAppend]", "n := bytes.LastIndexByte(buffer, '\\n')", "if n == -1 {", "return", "}",
+     "record := buffer[:n]", "if len(record) > 0 && mlr.testRecordStart(record) {", "mlr.consumeRecord(record)", "}",
+     "mlr.offsetAppend = copy(mlr.buffer, buffer[n+1:])", "mlr.offsetSearch = 0"] := by decide
+theorem C08_fact_flush_all : Facts.frame_flush_all =
+    ["record := mlr.buffer[:mlr.offsetAppend]", "if len(record) > 0 {", "if record[len(record)-1] == '\\n' {",
+     "record = record[:len(record)-1]", "}", "if mlr.testRecordStart(record) {", "mlr.consumeRecord(record)", "}", "}",
+     "mlr.offsetAppend = 0", "mlr.offsetSearch = 0"] := by decide
+theorem C08_fact_check_overflow : Facts.frame_check_overflow =
+    ["if len(mlr.buffer)-mlr.offsetAppend >= mlr.softRecordLimit {", "return", "}", "buffer := mlr.buffer[:mlr.offsetAppend]",
+     "if searchStart := mlr.offsetSearch; searchStart > 0 {", "if nextRecord := buffer[searchStart:]; mlr.testRecordStart(nextRecord) {",
+     "if prevRecord := buffer[:searchStart-1]; mlr.testRecordStart(prevRecord) {", "mlr.consumeRecord(prevRecord)", "}",
+     "mlr.consumeRecord(nextRecord)", "goto RESET", "}", "}", "if wholeRecord := buffer; mlr.testRecordStart(wholeRecord) {",
+     "mlr.consumeRecord(wholeRecord)", "}", "RESET:", "mlr.offsetAppend = 0", "mlr.offsetSearch = 0"] := by decide
 
 end C08
